@@ -222,6 +222,18 @@ func raceStress(args []string) error {
 				intp := ps.NewInterpreter()
 				intp.MaxOps = 10000
 				intp.ExecuteString(hostilePrograms[[]string{"redefine-operator", "put-encoding-slot", "alter-cidinit", "alter-errordict"}[(g+r)%4]])
+				// a workout of the data operators on values of this goroutine's own: whatever an
+				// operator keeps outside its instance (a scratch buffer, a shared result) shows as a race
+				// or as another goroutine's values
+				k := (g + r) % 7
+				w := ps.NewInterpreter()
+				w.MaxOps = 200000
+				werr := w.ExecuteString(fmt.Sprintf(workout, k))
+				var ws []string
+				for _, o := range w.Stack {
+					ws = append(ws, corpus.ObjDigest(o))
+				}
+				rec(fmt.Sprintf("workout:%d", k), fmt.Sprint(werr, ws))
 				if in.Entry == "type1" && r%3 == 0 {
 					if ft, err := type1.Read(bytes.NewReader(in.Data)); err == nil {
 						var buf bytes.Buffer
@@ -361,6 +373,27 @@ func reachableDigest() string {
 	}
 	return sb.String()
 }
+
+// workout exercises the data operators; %d is the goroutine's own parameter k.
+const workout = `/k %d def
+k 1 add k 2 add k 3 add k 4 add k 5 add k 6 add k 7 add k 8 add k 9 add k 10 add k 11 add k 12 add
+k 13 add k 14 add k 15 add k 16 add k 17 add k 18 add k 19 add k 20 add k 21 add k 22 add k 23 add k 24 add
+200 { 24 7 roll 24 -5 roll 5 k 1 add roll 3 1 roll } repeat
+24 copy 24 { pop } repeat 23 index exch pop
+matrix dup 0 k put matrix 0 get
+10 array dup 3 k put dup 3 get exch 2 4 getinterval length
+(abcdefgh) dup 2 k 65 add put dup 1 3 getinterval exch 4 (xy) putinterval
+5 dict dup /a k put dup /a get exch /b known
+/p { k 2 mul } bind def p /p load length /p where { pop 1 } if
+0 1 k 3 add { add } for
+[ k k 1 add k 2 add ] { 3 mul } forall
+k 3 eq { (big) } { (small) } ifelse
+{ k 100 add exit } loop
+StandardEncoding 65 get StandardEncoding k get
+k 2 eq k 3 ne and k 5 ne or not
+k 7 sub abs k 3 mul k 2 sub
+count
+`
 
 // libraryCalls uses every reader and writer of the library once, in the ways a program
 // would (explicit and default options, fonts with and without an encoding, the PDF
